@@ -857,7 +857,9 @@ impl Operator<()> for UnitStage {
 /// at the first failing element, names it, and has applied the operator to exactly the elements before it.
 fn huge_maps(run: &mut Run) -> u64 {
     let mut n = 0u64;
-    for len in [1usize << 33, 1 << 61, usize::MAX / 3, usize::MAX] {
+    // (lengths at which a buffer of sized outputs cannot even be requested: a request that could be attempted and
+    // refused would abort the process instead of panicking)
+    for len in [1usize << 61, usize::MAX / 3, usize::MAX] {
         for fail in [0usize, 1, 5] {
             n += 1;
             let counter = Rc::new(std::cell::Cell::new(0usize));
